@@ -59,21 +59,25 @@ __CPROVER_requires(PROTF_WF && (gh_tok == TOK_CELL || gh_tok == TOK_OTHER || gh_
 __CPROVER_requires(gh_tok == TOK_CELL ==> F_STATE(FUT0) == ST_NOT_VALUE)      /* unresolved future: payload not constructed */
 #define SETV_ASSIGNS(this_, agg) \
 __CPROVER_assigns(__CPROVER_object_whole(this_), __CPROVER_object_whole(agg), __CPROVER_object_whole(FUT0), PROTF_GHOSTS, gh_rc_calls, gh_rc_chain, gh_sn_calls)
-/* common outcome clauses; `payload_ok` says what the winner's payload looks like both at the instant of resolution and at return */
-#define SETV_ENSURES(this_, agg, payload_ok) \
-__CPROVER_ensures(cv_exc_pending == 0 && *P_CELL(this_) == 0 && (agg)->value <= 1) \
+/* common outcome clauses; `payload_ok` says what the winner's payload looks like both at the instant of resolution and at return.
+ * SETV_ENSURES_G is the same list for a value type whose constructor may throw (t_spec.h): `RET` = the call returned normally (every clause
+ * below speaks about a call that returned), `MAY_THROW` = 1 if an exceptional exit is admitted at all.  For every other type the two
+ * parameters are (cv_exc_pending == 0, 0): the call never throws and the clauses are unconditional. */
+#define SETV_ENSURES_G(this_, agg, payload_ok, RET, MAY_THROW) \
+__CPROVER_ensures(((MAY_THROW) || cv_exc_pending == 0) && ((RET) ==> (*P_CELL(this_) == 0 && (agg)->value <= 1))) \
 /* success: this call is the one resolution that takes effect */ \
-__CPROVER_ensures((agg)->value == 1 ==> (gh_resolved_by_me == 1 && *gh_F_slot == F_DIS && gh_tok == TOK_SPENT && gh_n_slot_rmw == __CPROVER_old(gh_n_slot_rmw) + 1)) \
-__CPROVER_ensures((agg)->value == 1 ==> (payload_ok)) \
-__CPROVER_ensures((agg)->value == 1 ==> (gh_rc_calls == 1 && gh_rc_chain == gh_chain_at_resolve && RET_IS_RC(agg)))     /* exactly the detached waiters are handed on, once */ \
-__CPROVER_ensures(((agg)->value == 1) == (__CPROVER_old(gh_tok) == TOK_CELL && gh_tok == TOK_SPENT && gh_resolved_by_me == 1)) \
+__CPROVER_ensures((RET) ==> ((agg)->value == 1 ==> (gh_resolved_by_me == 1 && *gh_F_slot == F_DIS && gh_tok == TOK_SPENT && gh_n_slot_rmw == __CPROVER_old(gh_n_slot_rmw) + 1))) \
+__CPROVER_ensures((RET) ==> ((agg)->value == 1 ==> (payload_ok))) \
+__CPROVER_ensures((RET) ==> ((agg)->value == 1 ==> (gh_rc_calls == 1 && gh_rc_chain == gh_chain_at_resolve && RET_IS_RC(agg))))     /* exactly the detached waiters are handed on, once */ \
+__CPROVER_ensures((RET) ==> (((agg)->value == 1) == (__CPROVER_old(gh_tok) == TOK_CELL && gh_tok == TOK_SPENT && gh_resolved_by_me == 1))) \
 /* a returning call never keeps the right to resolve: whoever takes it out of the cell resolves (otherwise NO resolution would take effect) */ \
-__CPROVER_ensures(gh_tok != TOK_ME) \
+__CPROVER_ensures((RET) ==> (gh_tok != TOK_ME)) \
 /* failure: leaves no trace */ \
-__CPROVER_ensures((agg)->value == 0 ==> (gh_resolved_by_me == 0 && gh_rc_calls == 0 && gh_n_slot_rmw == __CPROVER_old(gh_n_slot_rmw) && (agg)->base_suspend_point._count_flag == 0)) \
-__CPROVER_ensures((agg)->value == 0 ==> (F_STATE(FUT0) == __CPROVER_old(F_STATE(FUT0)) && F_EXCP(FUT0) == __CPROVER_old(F_EXCP(FUT0)))) \
+__CPROVER_ensures((RET) ==> ((agg)->value == 0 ==> (gh_resolved_by_me == 0 && gh_rc_calls == 0 && gh_n_slot_rmw == __CPROVER_old(gh_n_slot_rmw) && (agg)->base_suspend_point._count_flag == 0))) \
+__CPROVER_ensures((RET) ==> ((agg)->value == 0 ==> (F_STATE(FUT0) == __CPROVER_old(F_STATE(FUT0)) && F_EXCP(FUT0) == __CPROVER_old(F_EXCP(FUT0))))) \
 __CPROVER_ensures(gh_sn_calls == 0)                                  /* nothing is resumed inside the call */ \
 __CPROVER_ensures(gh_allocs == __CPROVER_old(gh_allocs))             /* C20 */
+#define SETV_ENSURES(this_, agg, payload_ok) SETV_ENSURES_G(this_, agg, payload_ok, cv_exc_pending == 0, 0)
 
 #ifdef CV_HAS_pr_set_value
 cv_i32 gh_v;
